@@ -1,6 +1,6 @@
 (** C02: -inline and -switch never change what the generated parser accepts or records. *)
 From PegV Require Import Base.Tac Spec.Syntax Spec.Peg Spec.WF Model.Machine Model.SkipCheck Model.Optimize Model.Gen
-  Proofs.FirstSound Proofs.OptSound Proofs.OptSwok Proofs.Top Proofs.OptTop Properties.Example.
+  Model.Analyses Model.Emit Model.SEmit Model.Exec Proofs.FirstSound Proofs.OptSound Proofs.OptSwok Proofs.Top Proofs.OptTop Proofs.SEmitFile Proofs.SEmitOpt Properties.Example.
 Local Open Scope nat_scope.
 
 (** For one grammar term [g] (the tree the generator compiles), every combination of the memo and
@@ -44,6 +44,26 @@ Theorem C02_switch_invisible :
       (b = true -> pos st1 = pos st2 /\ Machine.live st1 = Machine.live st2).
 Proof. exact c02_switch_invisible. Qed.
 Print Assumptions C02_switch_invisible.
+
+(** ... and at the level of the generated statements (Model/SEmit.v under the goto semantics of Model/Exec.v, see C01):
+    whatever the entry's function of the file generated from the OPTIMISED tree returns - under any memo / inline
+    setting, from any earlier state - is the verdict, the offset and the token list of the semantics of the ORIGINAL
+    tree; with C01_generated_code_every_execution for the original tree, the two files agree. *)
+Theorem C02_generated_code_switch :
+  forall g tab rank, wf_b g tab rank = true -> opt_ok_b g = true ->
+  good_grammar (optimize g) -> good_switches (optimize g) ->
+  forall ptx buf penv, good_buf buf -> valid_buf buf ->
+  forall memo inline r rb st0,
+    nth_error g r = Some rb -> rb <> RNil ->
+    deep_table_b (optimize g) inline = true -> slot_ok (optimize g) inline r -> reached (count_rules (optimize g)) r = true ->
+    exists n res evs, peg_parse g ptx buf penv n r = Some (res, evs) /\
+      forall out, xcall buf penv (mk_opts true memo inline (optimize g)) (gen_fn (optimize g) ptx inline) r (reset st0) out ->
+        match res with
+        | Succ p f => exists st', out = Ret true st' /\ pos st' = p /\ Machine.live st' = Syntax.flat f
+        | Fail => exists st', out = Ret false st'
+        end.
+Proof. exact generated_code_switch. Qed.
+Print Assumptions C02_generated_code_switch.
 
 (** The same without any side condition on the analysis or on the optimised tree: a grammar with a
     well-formedness certificate whose literals are code points and whose ranges are in order (no
